@@ -186,6 +186,8 @@ EXTRA = {
 }
 
 
+CF2 = ' (CF-2) no function of the modules this property rests on folds ASCII case: symbols are compared as the bytes they are.'
+
 # sentences appended for the rules of round 6 (rules/round6.py)
 EXTRA2 = {
  'C01': ' (CL-1) the aligner produced by Clone::clone carries clone(self.scoring); a clone rebuilt through a convenience constructor would lose the clip penalties.',
@@ -215,7 +217,7 @@ def main():
                 'evidence_file': '/verif/evidence/%s.json' % pid,
                 'replay_cmd_template': './bin/check %s --replay {path}' % pid,
                 'engine': 'biofacts+rules',
-                'level_claimed': {'category': c['level'], 'text': c['text'] + EXTRA.get(pid, '') + EXTRA2.get(pid, ''), 'design_ref': c['ref']},
+                'level_claimed': {'category': c['level'], 'text': c['text'] + EXTRA.get(pid, '') + EXTRA2.get(pid, '') + (CF2 if pid in ('C01', 'C02', 'C05', 'C06', 'C08', 'C09', 'C10', 'C16', 'C19', 'C20') else ''), 'design_ref': c['ref']},
                 'level_note': c['note'],
                 'technique': c['technique'],
             })
